@@ -41,7 +41,7 @@ def one(args):
         subprocess.run(["git", "-C", "/repo", "worktree", "remove", "--force", wt], capture_output=True)
 
 
-slots = 6
+slots = 5
 work = [[] for _ in range(slots)]
 for i, n in enumerate(names):
     work[i % slots].append((i % slots, n))
